@@ -41,7 +41,7 @@ func runC09(p *core.Prog, r *core.Report) {
 		// unmarshal of the parameter into a fresh Operations value
 		var unm ssa.Instruction
 		var target ssa.Value
-		core.Instrs(fn, func(x ssa.Instruction) {
+		core.InstrsDeep(fn, func(x ssa.Instruction) { // (the decoding may sit in a helper that is handed the bytes)
 			c, ok := x.(*ssa.Call)
 			if !ok {
 				return
@@ -51,7 +51,7 @@ func runC09(p *core.Prog, r *core.Report) {
 				return
 			}
 			for _, a := range c.Call.Args {
-				if a == ssa.Value(in) {
+				if a == ssa.Value(in) || core.CallerValue(fn, a) == ssa.Value(in) {
 					unm = x
 				}
 			}
@@ -69,6 +69,31 @@ func runC09(p *core.Prog, r *core.Report) {
 		if unm == nil || target == nil {
 			r.Fail("C09.R1", "ApplyOps/unmarshal", "ApplyOps decodes the given log bytes", "no Unmarshal of the parameter found", p.Pos(fn.Pos()))
 			return
+		}
+		// when a helper decodes, what ApplyOps assigns is the helper's result that carries the decoded message
+		if unm.Parent() != fn {
+			if site, ok := core.SiteIn(fn, unm).(*ssa.Call); ok && site != nil {
+				h := unm.Parent()
+				core.Instrs(h, func(x ssa.Instruction) {
+					rt, ok := x.(*ssa.Return)
+					if !ok {
+						return
+					}
+					for i, rv := range core.ReturnValues(rt) {
+						if rv != target {
+							continue
+						}
+						if len(rt.Results) == 1 {
+							target = site
+						}
+						for _, ref := range *site.Referrers() {
+							if ex, ok := ref.(*ssa.Extract); ok && ex.Index == i {
+								target = ex
+							}
+						}
+					}
+				})
+			}
 		}
 		ws := core.FieldWritesIn(fn, kvOps())
 		okAssign := len(ws) == 1 && ws[0].Kind == core.WAssign && ws[0].Value == target
@@ -105,7 +130,7 @@ func runC09(p *core.Prog, r *core.Report) {
 			if !ok || core.ReturnsNilError(rt) {
 				return
 			}
-			src := core.Trace(core.ResolveCell(rt.Results[len(rt.Results)-1]), 0)
+			src := core.Trace(core.ResolveCell(rt.Results[len(rt.Results)-1]), 1)
 			if !(src.HasCallNamed("Unmarshal") || src.HasCallNamed("UnmarshalVT") || src.HasCall(p.FuncObj(pkgStore, "baseStore.Flush"))) {
 				foreign = p.Pos(rt.Pos())
 			}
